@@ -230,7 +230,9 @@ func fileEntry(length any, path any, extra ...any) *refcodec.Dict {
 		d.Set("path", path)
 	}
 	for i := 0; i+1 < len(extra); i += 2 {
-		d.Set(extra[i].(string), extra[i+1])
+		if extra[i+1] != nil {
+			d.Set(extra[i].(string), extra[i+1])
+		}
 	}
 	return d
 }
@@ -555,10 +557,6 @@ func declenLattice(emit func(caseSpec)) {
 			return dictOf(baseMultiKV([]any{fileEntry(basePL, []any{raw(mark)})}), false)
 		}},
 		{name: "info key", info: func() any {
-			d := dictOf(baseSingleKV(), false)
-			d.NoSort = true
-			d.Keys = append(d.Keys, "")
-			d.Vals = append(d.Vals, 1)
 			// the key itself is the mark: encode by hand
 			b := refcodec.Benc(dictOf(baseSingleKV(), false))
 			return raw(string(b[:len(b)-1]) + mark + "i1ee")
@@ -595,6 +593,9 @@ func declenLattice(emit func(caseSpec)) {
 		}
 		for _, body := range []string{"abc", piecesString20} {
 			for _, l := range lens {
+				if l.hostile && body != "abc" {
+					continue // one body is enough for the 2 GiB declarations (each runs alone in a fresh process)
+				}
 				for _, truncated := range []bool{false, true} {
 					s := l.decl(len(body)) + ":" + body
 					ps := []part{{B: pre, N: 1}, {B: []byte(s), N: 1}}
